@@ -196,12 +196,24 @@ pub struct SixelMonitor {
     last_d: usize,
     polls_since_all_done: usize,
     schedule: String,
+    /// arrivals with an ordinal below this came before the last erase-display of the stream: whether they
+    /// had been shown or were still decoding, they are gone
+    void_before: usize,
+}
+
+/// Arrivals that were not dropped from the engine's queue by an erase, in arrival order.
+fn live(s: &Session) -> impl Iterator<Item = &crate::term::Arrival> {
+    s.arrivals.iter().filter(|a| !a.cancelled)
 }
 
 impl SixelMonitor {
-    fn model(&self, d: usize, fw: i32, fh: i32) -> Vec<(i32, i32, i32, i32, u64)> {
+    fn model(&self, s: &Session, d: usize, fw: i32, fh: i32) -> Vec<(i32, i32, i32, i32, u64)> {
         let mut list: Vec<(i32, i32, i32, i32, u64)> = Vec::new();
-        for r in self.refs.iter().take(d) {
+        for a in live(s).take(d) {
+            if a.ordinal < self.void_before {
+                continue;
+            }
+            let Some(r) = self.refs.get(a.ordinal) else { continue };
             if !r.ok {
                 continue;
             }
@@ -225,7 +237,7 @@ impl SixelMonitor {
             return Some(inv("C14", "poll_count_decreased", format!("decodes consumed went from {} to {d}", self.last_d), at));
         }
         // nothing is delivered before it is decoded, nothing out of order
-        let finished_prefix = s.arrivals.iter().take_while(|a| a.finished.is_some()).count();
+        let finished_prefix = live(s).take_while(|a| a.finished.is_some()).count();
         if d > finished_prefix {
             return Some(inv(
                 "C14",
@@ -235,7 +247,7 @@ impl SixelMonitor {
             ));
         }
         let fd = s.buf.get_font_dimensions();
-        let want = self.model(d, fd.width, fd.height);
+        let want = self.model(s, d, fd.width, fd.height);
         let have: Vec<(i32, i32, i32, i32, u64)> = s.buf.layers[0]
             .sixels
             .iter()
@@ -264,7 +276,7 @@ impl SixelMonitor {
                 at,
             ));
         }
-        if want.len() < self.refs.iter().take(d).filter(|r| r.ok).count() {
+        if want.len() < live(s).take(d).filter(|a| a.ordinal >= self.void_before && self.refs.get(a.ordinal).map(|r| r.ok).unwrap_or(false)).count() {
             stats.count("probe_shadowing_removed_image");
         }
         None
@@ -316,6 +328,30 @@ impl Monitor for SixelMonitor {
                     }
                     self.refs.push(rf);
                 }
+                // erase display (ESC [ 2 J) seen in the input itself, not inferred from the engine's queue:
+                // everything that arrived before it is gone, shown or not
+                if let EvResult::Byte(b'J', _) = r {
+                    let n = s.recent.len();
+                    if n >= 4 && s.recent.iter().skip(n - 4).copied().eq([0x1b, b'[', b'2', b'J']) {
+                        self.schedule.push_str("E ");
+                        self.void_before = s.arrivals.len();
+                        stats.count("erase_display_seen");
+                        if live(s).count() > s.consumed {
+                            return Some(inv(
+                                "C14",
+                                "erase_kept_pending_decodes",
+                                format!("after erase display {} decodes that arrived before it are still queued and would be shown after it", live(s).count() - s.consumed),
+                                at,
+                            ));
+                        }
+                        if !s.buf.layers[0].sixels.is_empty() {
+                            return Some(inv("C14", "erase_kept_images", format!("after erase display {} images are still on the screen", s.buf.layers[0].sixels.len()), at));
+                        }
+                        if s.arrivals.iter().any(|a| a.cancelled) {
+                            stats.count("probe_erase_dropped_pending_decodes");
+                        }
+                    }
+                }
                 None
             }
             EvResult::Release(t, st) => {
@@ -325,7 +361,7 @@ impl Monitor for SixelMonitor {
                         stats.count("decode_thread_vs_reference_panic_mismatch");
                     }
                 }
-                if s.arrivals.iter().all(|a| a.finished.is_some()) {
+                if live(s).all(|a| a.finished.is_some()) {
                     self.polls_since_all_done = 0;
                 }
                 // probe: a later decode finished while the head has not
@@ -347,7 +383,7 @@ impl Monitor for SixelMonitor {
                 }
                 let v = self.compare(s, at, stats);
                 self.last_d = s.consumed;
-                if s.arrivals.iter().all(|a| a.finished.is_some()) {
+                if live(s).all(|a| a.finished.is_some()) {
                     self.polls_since_all_done += 1;
                 }
                 v
@@ -358,8 +394,8 @@ impl Monitor for SixelMonitor {
 
     fn at_end(&mut self, s: &Session, at: usize, stats: &mut RunStats) -> Option<Violation> {
         stats.sig("schedule", crate::rng::fnv(&self.schedule));
-        let k = s.arrivals.len();
-        if k > 0 && s.arrivals.iter().all(|a| a.finished.is_some()) && self.polls_since_all_done >= k + 1 {
+        let k = live(s).count();
+        if k > 0 && live(s).all(|a| a.finished.is_some()) && self.polls_since_all_done >= k + 1 {
             stats.count("liveness_checked");
             if s.consumed != k {
                 return Some(inv(
